@@ -15,9 +15,10 @@
   `colour_roundtrip`, `frame`, `refuse_pure`, `reset_default`) do not depend on it.
 
   By name (5 kinds, 45 handlers, 10 handler shapes): `doc_linked`, `get_listed`, `get_alias`, `set_get_named`,
-  `frame_named`, `reset_named`.  Per handler/row: `set_get_partial` (38 of the 45 handlers), `set_get_clip`,
+  `frame_named`, `reset_named`, `set_get_record` (whole record, M ⊑ S for non-blank text).  Per handler/row: `set_get_partial` (38 of the 45 handlers), `set_get_clip`,
   `set_get_point`, `set_get_intervals`, `set_get_coord`, `handlers_covered`, `null_resets`.  Stated only:
-  `set_get_statement` (whole record as one list equation, blank/NULL-text results per type, typed sources).
+  `set_get_statement` (the whole-record equation also for blank/NULL text, NULL source and the coordinate names; typed
+  sources have no theorem).
 
   NOT in any theorem (S and M share the functions): what number a numeral text is (`convScalar`), what colour a colour
   text is (`colorParse`), what point a point text is (`fpointText`); `Record.denote` calls the model's converters, so
@@ -910,12 +911,73 @@ theorem reset_named (k : Kind) (hk : k ∈ kinds) (i : Nat) (g : GetEntry) (hg :
     k.getProp (k.reset o) g.name = k.getAt k.defaults i := by
   rw [get_listed k hk i g hg]; rfl
 
-/-- the whole-record form (what the driver prints as the S alternatives of every `y set`): an accepted set through a
-    documented name turns the record of listed properties into one of the records `Record.setOutcomes` allows for the
-    documented property and type — the named property takes a value the text denotes / its default, every other
-    property keeps its value.  STATED ONLY.  Proved instead: `set_get_named` (value of the named property, non-blank
-    and blank text), `frame_named` (all other properties), `null_resets` (no source); the packaging into one list
-    equation, the exact blank/NULL-text results per type and typed sources are tied by the correspondence run. -/
+theorem names_nodup (k : Kind) (hk : k ∈ kinds) : (k.gets.map (·.name)).Nodup := by
+  have h := doc_ok k hk
+  unfold docOk at h
+  cases hd : docOf k.name with
+  | none => rw [hd] at h; cases h
+  | some d =>
+    rw [hd] at h
+    simp only [Bool.and_eq_true, decide_eq_true_eq] at h
+    exact h.2
+
+/-- **the whole record after a set, M ⊑ S**: for every kind, documented property `p` (coordinates of a point aside) and
+    documented name `n`, when the setter accepts a text `v` that is not blank, the record of ALL listed properties
+    afterwards is one of the records S allows (`Record.setOutcomes`, the list the driver prints in the S column of
+    `y set`): the named property holds a value `v` denotes for the documented type, every other listed property
+    holds what it held -/
+theorem set_get_record (k : Kind) (hk : k ∈ kinds) (d : DocKind) (hd : docOf k.name = some d)
+    (p : DocProp) (hp : p ∈ d.props) (n : Str) (hn : n ∈ p.names) (hx : p.ty ≠ .pointX) (hy : p.ty ≠ .pointY)
+    (tab : List NamedColor) (o : Obj) (hw : WF k o) (v : Str) (tok : Nat) (hnb : blank (some v) = false)
+    (hok : (k.setProp tab o n (.text (some v)) tok).ret.isOk = true) :
+    k.dump (k.setProp tab o n (.text (some v)) tok).obj ∈
+      setOutcomes tab (k.dump o) (k.dump k.defaults) p.listed p.ty (some (some v)) := by
+  obtain ⟨old, x, _, hnew, hden⟩ := set_get_named k hk d hd p hp n hn tab o hw v tok hok
+  obtain ⟨i, g, e, hg, hgn, hl, _, _, _, _⟩ := doc_linked k hk d hd p hp n hn
+  have hden' : x ∈ denote tab p.ty old v := by
+    rcases hden with h | h
+    · exact h
+    · rw [hnb] at h; cases h
+  rw [Kind.getProp_row k _ _ i hl] at hnew
+  have hdump : k.dump (k.setProp tab o n (.text (some v)) tok).obj = Record.set (k.dump o) p.listed x := by
+    rw [← hgn]
+    apply Kind.dump_set k o _ i g x hg (names_nodup k hk) (by rw [hgn]; exact hnew)
+    intro j hj hji
+    have hgj : k.gets[j]? = some k.gets[j] := List.getElem?_eq_getElem hj
+    have hne : k.gets[j].name ≠ p.listed := by
+      rw [← hgn]
+      intro hc
+      have hnd := List.pairwise_iff_getElem.mp (names_nodup k hk)
+      have hil : i < k.gets.length := by
+        rcases Nat.lt_or_ge i k.gets.length with h | h
+        · exact h
+        · rw [List.getElem?_eq_none h] at hg; cases hg
+      have hgi : k.gets[i] = g := by
+        have := List.getElem?_eq_getElem hil; rw [this] at hg; exact Option.some.inj hg
+      rw [← hgi] at hc
+      rcases Nat.lt_or_gt_of_ne hji with hlt | hgt
+      · exact hnd j i (by simpa using hj) (by simpa using hil) hlt (by simp only [List.getElem_map]; exact hc)
+      · exact hnd i j (by simpa using hil) (by simpa using hj) hgt (by simp only [List.getElem_map]; exact hc.symm)
+    have := frame_named k hk d hd p hp n hn tab o (.text (some v)) tok j _ hgj hne
+    rw [get_listed k hk j _ hgj, get_listed k hk j _ hgj] at this
+    exact this
+  rw [hdump]
+  unfold setOutcomes
+  simp only [Option.getD_some]
+  have hmem : ∀ old', Record.set (k.dump o) p.listed x ∈ (denote tab p.ty old' v).map (Record.set (k.dump o) p.listed) := by
+    intro old'
+    rw [denote_old tab p.ty old' old v hx hy]
+    exact List.mem_map.mpr ⟨x, hden', rfl⟩
+  cases hty : p.ty <;> simp only [hnb, Bool.false_eq_true, ↓reduceIte] <;> rw [← hty] <;> exact hmem _
+
+-- hypotheses satisfiable: "4.5" for the axis `begin` is accepted and not blank
+example : (axis.setProp colors axis.defaults (str "begin") (.text (some (str "4.5"))) 1).ret.isOk = true ∧
+    blank (some (str "4.5")) = false := by decide +kernel
+
+/-- the whole-record form for EVERY text/NULL source.  Proved: `set_get_record` (non-blank text, every documented name
+    but the two coordinate names of text `pos`).  STATED ONLY, tied by the correspondence run: blank and NULL text and
+    the NULL source as one list equation (per handler: `null_resets`, the blank disjuncts of the `set_get_*` theorems),
+    the coordinate names `x`, `y` (per name: `set_get_named`), typed sources (`y setv`: no theorem). -/
 def set_get_statement : Prop :=
   ∀ (k : Kind), k ∈ kinds → ∀ (d : DocKind), docOf k.name = some d → ∀ p ∈ d.props, ∀ n ∈ p.names,
     ∀ (o : Obj), WF k o → ∀ (src : Src) (tok : Nat), (∀ t x, src ≠ .typed t x) →
